@@ -137,6 +137,11 @@ pub fn run_c04(tape: &[u8], cx: &Cx) -> Outcome {
     if cx.render {
         o.render = case.render.clone();
     }
+    judge_minimize(&case, o)
+}
+
+/// build the case twice, minimise one copy, and judge it against the reference DFA of the language
+fn judge_minimize(case: &AutoCase, mut o: Outcome) -> Outcome {
     let (a, mut b) = match (case.build(), case.build()) {
         (Ok(a), Ok(b)) => (a, b),
         (Err(m), _) | (_, Err(m)) => {
@@ -924,6 +929,74 @@ fn top_classes_case(m: usize) -> Outcome {
     o
 }
 
+/// "Signature used as identity" family: a 90-state automaton over 7 character classes in which two
+/// states have identical rows (kind 0), or one state is a copy of another (kind 1), except for a
+/// perturbation (alpha, beta) of two successor ids that sit next to each other — in one column at two
+/// consecutive states (kind 0: the column is otherwise a copy of its neighbour column), or in one row
+/// at two neighbouring columns (kind 1). An implementation that recognises equal columns / rows /
+/// blocks by a hash or checksum instead of comparing them is wrong exactly on such near-twins, for
+/// particular (alpha, beta): all pairs with one component in {-2,-1,1,2} and the other anywhere in
+/// range are enumerated. Builder ids equal the indices used here (every state is first mentioned in
+/// index order), so the perturbation is in terms of the ids the crate sees.
+fn twin_case(kind: usize, alpha: i64, beta: i64) -> Option<Outcome> {
+    use crate::spec::Call;
+    let n: usize = 90;
+    let atoms = Atoms::from_landmarks(vec![0x61, 0x62, 0x63, 0x64, 0x65]);
+    let k = atoms.len(); // gap, a, b, c, d, e, rest
+    debug_assert_eq!(k, 7);
+    let p = 13usize; // (13*3+7) % 90 = 46: room for perturbations in both directions
+    let mut delta: Vec<Vec<usize>> = (0..n).map(|i| vec![(i * 7 + 1) % n, (i + 1) % n, (i * 5 + 2) % n, (i * 3 + 7) % n, (i * 3 + 7) % n, (i + n / 2) % n, i]).collect();
+    let fin: Vec<bool> = (0..n).map(|i| i % 7 == 0).collect();
+    let shift = |x: usize, d: i64| -> Option<usize> {
+        let y = x as i64 + d;
+        if y < 0 || y >= n as i64 {
+            None
+        } else {
+            Some(y as usize)
+        }
+    };
+    let mut fin = fin;
+    let what;
+    if kind == 0 {
+        // rows p and p+1 identical; column d = column c except at p and p+1
+        delta[p + 1] = delta[p].clone();
+        fin[p + 1] = fin[p];
+        delta[p][4] = shift(delta[p][4], alpha)?;
+        delta[p + 1][4] = shift(delta[p + 1][4], beta)?;
+        what = format!("90 states; states {} and {} have identical rows and column 'd' is column 'c', except d({}) = c({}){:+} and d({}) = c({}){:+}", p, p + 1, p, p, alpha, p + 1, p + 1, beta);
+    } else {
+        // row 40 = row p except at the neighbouring columns c and d
+        let q = 40usize;
+        delta[q] = delta[p].clone();
+        fin[q] = fin[p];
+        delta[q][3] = shift(delta[q][3], alpha)?;
+        delta[q][4] = shift(delta[q][4], beta)?;
+        what = format!("90 states; row {} is row {} except on 'c' ({:+}) and 'd' ({:+})", q, p, alpha, beta);
+    }
+    let sem = Sem { atoms: atoms.clone(), delta, fin, n_base: n, n_clones: 0, n_unreachable: 0 };
+    let mut calls: Vec<Call> = Vec::new();
+    // first mention of every state in index order (the real default follows and replaces this one)
+    for i in 0..n as u32 {
+        calls.push(Call::Default(i, i));
+    }
+    for i in 0..n {
+        for x in 0..k - 1 {
+            calls.push(Call::Trans(i as u32, atoms.atoms[x], sem.delta[i][x] as u32));
+        }
+        calls.push(Call::Default(i as u32, sem.delta[i][k - 1] as u32));
+        if sem.fin[i] {
+            calls.push(Call::Final(i as u32));
+        }
+    }
+    let spec = Spec { init: 0, calls };
+    let case = AutoCase { atoms, dfa: sem_dfa(&sem), source: Source::Built(spec, sem), render: what };
+    let mut o = judge_minimize(&case, Outcome::default());
+    for f in o.fails.iter_mut() {
+        f.msg = format!("{}: {}", case.render, f.msg);
+    }
+    Some(o)
+}
+
 pub fn enumerate_c04(_thorough: bool, part: usize, parts: usize, sink: &mut crate::runner::EnumSink) {
     for (k, &m) in [400usize, 66000].iter().enumerate() {
         if (k + 2) % parts != part {
@@ -948,7 +1021,31 @@ pub fn enumerate_c04(_thorough: bool, part: usize, parts: usize, sink: &mut crat
         let o = counter_case(n, m);
         sink.case(&o, true, || format!("scale case: counter automaton modulo {} with {} labelled characters, every state duplicated", n, m));
     }
+    // near-twin family
+    let mut idx = 0usize;
+    let mut n_twin = 0usize;
+    for kind in 0..2usize {
+        for small in [-2i64, -1, 1, 2] {
+            for other in -46i64..=43 {
+                for (alpha, beta) in [(small, other), (other, small)] {
+                    idx += 1;
+                    if idx % parts != part {
+                        continue;
+                    }
+                    if let Some(o) = twin_case(kind, alpha, beta) {
+                        n_twin += 1;
+                        sink.case(&o, true, || format!("near-twin family kind {} perturbation ({:+},{:+})", kind, alpha, beta));
+                        if sink.failed() {
+                            return;
+                        }
+                    }
+                }
+            }
+        }
+    }
+    let _ = n_twin;
     if part == 0 {
+        sink.stats.exhaustive_spaces.push("near-twin family: 90-state automata with two identical rows and a column that copies its neighbour except for (alpha, beta) at two consecutive states, or a row that copies another except for (alpha, beta) at two neighbouring columns; every (alpha, beta) with one component in {-2,-1,1,2} and the other in [-46,43]".to_string());
         sink.stats.exhaustive_spaces.push("10 scale cases: two states differing only on the last 300 of 400 / 66000 labelled characters; counter automata modulo n with m labelled characters and every state duplicated, (n,m) in (3,2) (7,5) (300,4) (5,300) (4,66000), and automata with 3 / 300 / 66000 equivalent sinks and the accepting state at the largest id: built, minimised, pruned; state counts against the known Myhill-Nerode index and the language on fixed word lists".to_string());
         sink.stats.samples.push("[enum] scale case: counter automaton modulo 4 with 66000 labelled characters; 66000 equivalent sinks + accepting state with id 66001".to_string());
     }
